@@ -290,8 +290,17 @@ def run(ck):
     nfull = 30 if ck.tier == 'quick' else 400
     sites = collections.Counter()
     vm_examples = []
+    env_corpus = [[], ['--medium=0,0,0'], ['--medium=13,0.005,0'], ['--medium=13,0.005,0,10', '--medium=5,0.001,-1'],
+                  ['--medium=13,0.005,0,10', '--medium=5,0.001,-1', '--boundary=circular'],
+                  ['--medium=13,0.005,0,10', '--medium=5,0.001,-1,25', '--medium=80,4,-2', '--boundary=circular'],
+                  ['--medium=13,0.005,0,12', '--medium=5,0.001,0', '--radial-count=8', '--radial-radius=0.001'],
+                  ['--medium=13,0.005,0,10', '--medium=5,0.001,-1,25', '--medium=80,4,-2']]
     for i in range(nfull):
         argv, meta = cmdgen.gen_cmdline(rng)
+        if i < len(env_corpus):
+            # every kind of environment block once: free space, perfect ground, one / two / three media, linear and
+            # circular boundaries with and without a radial screen
+            argv = ['-f', '7', '-w', '5,0,0,2,0,0,12,.001', '--excitation-pulse=2', '--theta=10,35,3', '--phi=0,90,2'] + env_corpus[i]
         if rng.random() < 0.5:
             argv += ['--option=far-field-absolute', '--ff-distance=%g' % rng.choice([1, 100, 2500.5]), '--option=far-field']
             if rng.random() < 0.5:
